@@ -294,10 +294,12 @@ inline const char * r_name(int k)
   static const char * nm[NR] = {"zero", "e_first", "e_last", "ones", "J*ones", "J*alt", "perp-range(J)"};
   return nm[k];
 }
-constexpr int NS = 5;
+constexpr int NS = 7;
+/// lambda resp. Delta menu. The two extreme entries are the same extreme regularisation seen from both sides: lambda = 1e20 in
+/// solve_linear_ldlt and Delta = 1e-20 (lambda = 1/Delta = 1e20) in solve_trust_region; see s_val_mode()
 inline double s_val(int k)
 {
-  static const double t[NS] = {1e-6, 1e-3, 1, 1e3, 1e6};
+  static const double t[NS] = {1e-6, 1e-3, 1, 1e3, 1e6, 1e20, 1e-20};
   return t[k];
 }
 
